@@ -1,4 +1,5 @@
 """C02 — regret bound from unsampled vanilla solve dominates the true regret."""
+import os
 import e4
 import facts
 import loops
@@ -159,12 +160,30 @@ def per_player_sums(ctx, rule):
                 it_ok = it_arg[0] == 'param' and f.locals[it_arg[1]]['ty'] == 'u64'
             par_arg = strip_refs(q.subst_upvars(lib, cf, ae[2][2]))
             par_ok = par_arg[0] in ('param', 'upvar')
+            if os.environ.get('CFR_DEBUG_C02'):
+                print('DEBUG par_arg', par_arg, [strip_refs(v_) for _, _, v_ in q.multi_def_values(f, par_arg[1])] if par_arg[0] == 'var' else '')
+            if not par_ok and par_arg[0] == 'var':
+                # a local copy of the parameter (`let params = self.params;` with the solver state split into locals)
+                vs_ = [strip_refs(v_) for _, _, v_ in q.multi_def_values(f, par_arg[1])]
+                par_ok = bool(vs_) and all(v_[0] in ('param', 'upvar') or (v_[0] == 'field' and strip_refs(v_[1])[0] in ('param', 'upvar', 'deref')) for v_ in vs_)
             if not par_ok and par_arg[0] == 'field' and strip_refs(par_arg[1])[0] in ('param', 'var', 'deref'):
                 # the parameters kept in a context struct the solver was given / built from its own parameter
                 base_ = strip_refs(par_arg[1])
                 while base_[0] == 'deref':
                     base_ = strip_refs(base_[1])
                 par_ok = base_[0] == 'param' or (base_[0] == 'var' and (lambda v0: v0 is not None and strip_refs(v0)[0] in ('param', 'upvar'))(q.record_field_init(f, base_[1], par_arg[2])))
+            if not par_ok and par_arg[0] == 'field' and f.is_closure and q.find_sub(par_arg, lambda x_: x_[0] == 'upvar') is not None:
+                # ... a context struct captured by the closure that runs the loop (`pool.scope(|_| solver.run(..))`): the
+                # field as the enclosing function built it
+                pe_ = strip_refs(q.resolve_captures(lib, f, par_arg))
+                top_ = lib.fns.get(q.top(f.name))
+                b_ = pe_
+                while b_[0] in ('field', 'deref', 'ref'):
+                    if b_[0] == 'field' and strip_refs(b_[1])[0] == 'var' and top_ is not None:
+                        v0_ = q.record_field_init(top_, strip_refs(b_[1])[1], b_[2])
+                        par_ok = v0_ is not None and strip_refs(v0_)[0] in ('param', 'upvar')
+                        break
+                    b_ = strip_refs(b_[1])
             ctx.verdict(whole and it_ok and par_ok, rule, '%s:%s#%d' % (rule, q.top(f.name), n),
                         'a per-player bound is the sum over the *entire* infoset slice of advance(it, params) with the loop\'s own iteration index',
                         f.where(bi), 'whole slice: %s; it argument %s is the induction variable: %s; params passed through: %s' % (whole, facts.show(it_arg)[:30], it_ok, par_ok),
